@@ -24,7 +24,7 @@ ASSUMED_ENUM_FIELDS = {
 
 
 def run(ctx):
-    F, cl = MS.run_memsafe(ctx, "multiboot2_header", ["C14", "C15", ("C05", c05.only_header_kinds, "header kinds")], {"sites": 15})
+    F, cl = MS.run_memsafe(ctx, "multiboot2_header", ["C14", "C15", ("C05", c05.only_header_kinds, "header kinds")], {"sites": 7})
     # the region itself: ref_from_ptr views exactly the declared length (premise of C10)
     ctx.import_prop("C10", only=lambda o: o.key.startswith("ref_from_ptr"), label="declared region")
     # header-tag iterator: same transition premises as C03 with H = HeaderTagHeader
@@ -36,8 +36,7 @@ def run(ctx):
         rt, _ = an.of(F, it).ret()
         n = N(rt) if rt is not None else None
         payload = ("ref", fld(deref(fld(deref(arg(1)), 0)), 1))
-        g = n is not None and n[0] == "aggr" and n[1][1] == "multiboot2_common::iter::TagIter" and dict(zip(n[1][3], n[2])).get("next_tag_offset") == ("c", 0) \
-            and dict(zip(n[1][3], n[2])).get("buffer") == payload
+        g = n is not None and c03.tagiter_fresh(n, payload)
         ctx.check(g, "T1", "iter", "iter() = TagIter{offset 0, buffer = the loaded header's payload field} (bytes 16 .. declared length)", it.get("span", ""),
                   how=G.show(rt)[:160], why=G.show(rt)[:300])
     n, bad = MS.tagiter_new_callsites(ctx, F, "multiboot2_header")
